@@ -107,6 +107,26 @@ func (e *Env) wf(st *State, v Term, typ types.Type, heapName string) {
 	default:
 		return
 	}
+	// declared single-field invariants hold of every cell of the field's heap
+	// (obligation at every store to the field and of the zero value)
+	for _, fi := range e.w.Spec.FieldInvs {
+		if heapName != "H$"+fi[0]+"$"+fi[1] || valSort.IsArray() {
+			continue
+		}
+		ex, err := ParseSpecExpr(fi[2])
+		if err != nil {
+			continue
+		}
+		prev := body
+		body = func(x string) string {
+			sub := &Env{w: e.w, names: map[string]TV{"v": {Term{x, valSort}, typ}}, st: st, old: st, lets: map[string]SExpr{}}
+			b, err := sub.EvalBool(ex)
+			if err != nil {
+				return prev(x)
+			}
+			return fmt.Sprintf("(and %s %s)", prev(x), b.S)
+		}
+	}
 	if valSort.IsArray() {
 		ks, _ := valSort.ArrayParts()
 		x := fmt.Sprintf("(select (select %s a) i)", hv.S)
